@@ -5,7 +5,7 @@
    - llvm_tools.rs `llvm_profiles_to_lcov`, `find_binaries` (the selection it applies to what the walker yields);
    - lib.rs `consumer`: the Profraw/Profdata branch (parse every export, skip the ones that do not parse, add_results)
      and the GCC branch for `ItemType::Path` (run gcov, single/multiple-file latch `GcovType`, parse, remove_file,
-     `rename_single_files`).
+     `rename_single_files`; on a gcov failure the worker directory is emptied and the item contributes nothing).
    NOT MODELLED (enters as data / Section variables, universally quantified in the theorems):
    - the tools: whether llvm-profdata / llvm-cov / gcov succeed and what they write (`toolset`, `gi_left`);
    - the `ignore` crate walker (which entries it yields, in which order), `infer::is_app` (a bit per entry),
@@ -185,7 +185,9 @@ Section Gcc.
   Definition gcc_step (guess : bool) (ty : gcov_type) (d : wdir) (it : gitem)
     : outcome (gcov_type * wdir * option (list (name * cov))) :=
     let d := dir_write (gi_left it) d in
-    if negb (gi_run_ok it) then Ok (ty, d, None)
+    (* run_gcov failed: every regular file of the worker directory is removed (gcov may have written its output before
+       failing), the item contributes nothing, the latch is untouched (lib.rs, fix 1aab954) *)
+    if negb (gi_run_ok it) then Ok (ty, [], None)
     else
       let gp := gi_gcno_name it ++ ext in
       let ty := match ty with
@@ -208,6 +210,21 @@ Section Gcc.
           obind (walk_dir d d []) (fun '(d', rs) =>
           Ok (ty, d', Some (finish guess (gi_stem it) rs)))
       end.
+
+  (* the behaviour before fix 1aab954, kept only for the refutation Example in Props/C20.v: on a gcov failure the
+     partial output stayed in the worker directory and the next item of the same worker picked it up *)
+  Definition gcc_step_old (guess : bool) (ty : gcov_type) (d : wdir) (it : gitem)
+    : outcome (gcov_type * wdir * option (list (name * cov))) :=
+    if negb (gi_run_ok it) then Ok (ty, dir_write (gi_left it) d, None) else gcc_step guess ty d it.
+  Fixpoint gcc_worker_old (guess : bool) (ty : gcov_type) (d : wdir) (items : list gitem)
+    : outcome (gcov_type * wdir * list (list (name * cov))) :=
+    match items with
+    | [] => Ok (ty, d, [])
+    | it :: items =>
+        obind (gcc_step_old guess ty d it) (fun '(ty', d', r) =>
+        obind (gcc_worker_old guess ty' d' items) (fun '(ty'', d'', bs) =>
+        Ok (ty'', d'', match r with Some b => b :: bs | None => bs end)))
+    end.
 
   (* one consumer thread over its items; the batches it adds, in order *)
   Fixpoint gcc_worker (guess : bool) (ty : gcov_type) (d : wdir) (items : list gitem)
